@@ -480,7 +480,23 @@ def decision_configs(draw):
     cfg["width_log"] = [draw(st.floats(-1.3, 1.7)) for _ in range(cfg["d"])]
     cfg["steps"] = draw(st.integers(30, 90))
     cfg["cliff"] = draw(st.sampled_from([False, False, True]))
+    # the chain may have been saved and restored part-way: the restored object is the same sampler at the same temperature
+    cfg["reload_after"] = draw(st.sampled_from([None, None, draw(st.integers(1, 25))]))
     return cfg
+
+
+def reloaded(cfg, ch, tgt):
+    import os
+    import tempfile
+    from props.c09_save_load import load
+
+    fd, path = tempfile.mkstemp(suffix=".npz")
+    os.close(fd)
+    try:
+        ch.save(path)
+        return load(cfg, path, tgt)
+    finally:
+        os.remove(path)
 
 
 def body_decisions(case, ctx):
@@ -499,7 +515,15 @@ def body_decisions(case, ctx):
         start = np.abs(start) + 0.1 * s
     ch = make_sampler(cfg, start, tgt)
     steps = min(cfg["steps"], 95) if cls == "pca" else cfg["steps"]     # PCA directions are axis-aligned for the first 100 steps
-    dec = decisions_from_trace(cfg, ch, tgt, steps)
+    k = cfg.get("reload_after")
+    if k is not None and k < steps:
+        dec = decisions_from_trace(cfg, ch, tgt, k)
+        ch = reloaded(cfg, ch, tgt)
+        rest = decisions_from_trace(cfg, ch, tgt, steps - k) if dec is not None else None
+        dec = None if rest is None else dec + rest
+        ctx.event("saved+restored part-way")
+    else:
+        dec = decisions_from_trace(cfg, ch, tgt, steps)
     if dec is None:
         raise Inconclusive("trace structure not recognised")
     T = cfg["T"]
